@@ -639,6 +639,22 @@ def step(t):
         return None
     if k == 'call':
         f, args, kw = t[1], t[2], dict(t[3])
+        if f in (S('chain'), A(S('itertools'), 'chain')) and args and not kw and all(a[0] in ('list', 'tuple', 'comp', 'cat', 'accum', 'array') for a in args):
+            return ('cat', tuple(('list', a[1]) if a[0] == 'tuple' else a for a in args))
+        if f == S('map') and len(args) == 2 and not kw:
+            # map(g, X) = [g(x) for x in X]   (g an attrgetter / itemgetter / function value: applied as a call term, which
+            # the term simplifier turns into the attribute or item)
+            b = BVK(('map', t), 'x', args[1])
+            return ('comp', ((b, TRUE),), simp(CALL(args[0], [b])) or CALL(args[0], [b]))
+        if f in (A(S('chain'), 'from_iterable'), A(A(S('itertools'), 'chain'), 'from_iterable')) and len(args) == 1 and not kw:
+            # chain.from_iterable(rows) = [x for row in rows for x in row]
+            x = args[0]
+            if x[0] == 'comp':
+                inner = BVK(('flat', t), 'x', x[2])
+                return ('comp', tuple(x[1]) + ((inner, TRUE),), inner)
+            row = BVK(('flatrow', t), 'row', x)
+            inner = BVK(('flat', t), 'x', row)
+            return ('comp', ((row, TRUE), (inner, TRUE)), inner)
         if f == S('str') and len(args) == 1 and not kw:
             return ('fstr', (args[0],))
         if f == S('pow') and len(args) == 2 and args[1] == C(2):
